@@ -3,7 +3,11 @@ from props import C06_text
 
 RULE = ("text: rendered documents, their mutations (deleted/inserted structural bytes, truncations, stray and missing closers), byte soups over the "
         "significant alphabet and generated token streams; every accepted input's tape is checked: end indices, back pointers, nesting, no index 0, "
-        "scalars are sub-slices of the input in increasing start order. non-trivial = accepted input whose tape has at least one container")
+        "scalars are sub-slices of the input in increasing start order. non-trivial = accepted input whose tape has at least one container. "
+        "wave 4 (props/C06_ptr.py): pointer offsets of every text scalar against the input slice (parse_slice, from_slice, reused tape), byte-level "
+        "mutants of documents and end-of-input classes; binary: an independent lexer re-reads every accepted input and the tape's payload tokens must be "
+        "the input's payload lexemes at their positions (all C03 streams + lexeme-level mutants + parse_slice / reused tape with string pointer offsets); "
+        "the four structural checkers (Rust, 2 x Coq, Python) must agree on all token shapes of length <= 4 and on mutated real tapes")
 TRUSTED = []
 ASSUMPTIONS = []
 
@@ -16,6 +20,11 @@ def run(ctx):
         C06_bin = None
     if C06_bin:
         C06_bin.run_binary(ctx)
+    # >>> a_c06 (wave 4): pointer ranges of text scalars, payload positions of binary tokens (independent lexer),
+    # parse_slice / reused-tape entry points, mutated documents, end-of-input classes, checker cross-check
+    from props import C06_ptr
+    C06_ptr.run(ctx)
+    # <<< a_c06
 
 
 def search(ctx):
